@@ -10,6 +10,7 @@ receives exactly that command; exactly the callbacks whose patterns match fire, 
 import asyncio
 
 import cmduniv
+from common import hx
 import priv
 import vloop
 
@@ -151,7 +152,57 @@ def tok(ev, classes):
     return "Z"
 
 
+def all_classes(ctx):
+    """Every response and indication class the library defines, with generated parameter values (lists of structures,
+    descriptors, optional parameters present): a callback, a waiter, another callback and a waiter for another command
+    are registered under its header; one command is received.  Both callbacks are called once with it, the waiter is
+    resolved with it, the other waiter stays pending - whatever the command contains."""
+    import gen
+    r = ctx.rng
+    classes = [c for c in gen.all_command_classes() if (int(c.header) >> 8) & 0xFF in (1, 2)]
+    for cls in classes:
+        for rep in range(ctx.scale(2, 6)):
+            loop = vloop.VLoop()
+            asyncio.set_event_loop(loop)
+            try:
+                api = mk_api(loop)
+                # lists non-empty in every second value: what a command *contains* must not matter to the dispatch
+                cmd = gen.gen_cmd(cls, r, size=(2 if rep % 2 == 0 else None))
+                other = r.choice([c for c in classes if c is not cls])
+                got = []
+
+                async def go():
+                    api.register_indication_listener(cls(partial=True), lambda c: got.append(("cb1", c)))
+                    w = api.wait_for_response(cls(partial=True))
+                    api.register_indication_listener(cls(partial=True), lambda c: got.append(("cb2", c)))
+                    w2 = api.wait_for_response(other(partial=True))
+                    try:
+                        api.frame_received(cmd.to_frame())
+                        raised = None
+                    except Exception as ex:  # noqa
+                        raised = type(ex).__name__
+                    await asyncio.sleep(0)
+                    return w, w2, raised
+                w, w2, raised = loop.run_until_complete(go())
+                who = [k for k, _ in got]
+                resolved = w.done() and not w.cancelled() and w.exception() is None
+                ctx.case(("allcls", cls.__qualname__, rep), nontrivial=True, sample=dict(cls=cls.__qualname__, called=who, waiter_resolved=resolved))
+                ctx.count("all-classes-dispatch")
+                ok = who == ["cb1", "cb2"] and resolved and not w2.done() and raised is None
+                if not ok:
+                    ctx.counterexample("dispatch-all-classes", dict(cls=cls.__qualname__, command_bytes=hx(cmd.to_frame().hl_packet.serialize())[:160]),
+                                       dict(callbacks=["cb1", "cb2"], waiter="resolved", other_waiter="pending", raised=None),
+                                       dict(callbacks=who, waiter="resolved" if resolved else "not resolved",
+                                            other_waiter="done" if w2.done() else "pending", raised=raised),
+                                       "a received command did not reach every matching callback once and the oldest matching waiter")
+                w2.cancel()
+            finally:
+                loop.close()
+                asyncio.set_event_loop(None)
+
+
 def run(ctx):
+    all_classes(ctx)
     r = ctx.rng
     classes, doms = cmduniv.universe()
     allp = [p for cls in classes for p in cmduniv.all_patterns(cls, doms[cls])]
